@@ -120,6 +120,8 @@ class Translator:
             for a in base.args:
                 if getattr(a.func, "__name__", "") == "kv_" + idx.name.strip("'"):
                     return a.args[0]
+        if isinstance(base, sp.Tuple) and getattr(idx, "is_Integer", False) and -len(base) <= int(idx) < len(base):
+            return base[int(idx)]           # element of a known display
         return sp.Function("getitem")(base, idx)
 
     def _index(self, s):
@@ -287,6 +289,11 @@ class Translator:
         A = lambda i: self.tr(args[i])  # noqa: E731
         npf = d.split(".")[-1] if d.split(".")[0] in ("np", "numpy", "math", "sp", "scipy") else None
         fn = npf or (name if isinstance(n.func, ast.Name) else None)
+        if fn in ("tuple", "list") and isinstance(n.func, ast.Name) and len(args) == 1 and not n.keywords:
+            v0 = A(0)
+            if isinstance(v0, sp.Tuple):
+                return v0            # tuple(<display / unrolled comprehension>) is that sequence
+            return sp.Function(fn)(v0)
         if fn in ("sqrt",):
             return sp.sqrt(A(0))
         if fn in ("abs", "absolute", "fabs"):
@@ -337,10 +344,13 @@ class Translator:
             return sp.ceiling(A(0))
         if fn == "len" and args:
             return sp.Function("len")(A(0))
-        if fn == "getattr" and isinstance(n.func, ast.Name) and len(args) == 2 and self.structured:
+        if fn == "getattr" and isinstance(n.func, ast.Name) and len(args) == 2:
             nm = self.tr(args[1])
-            if nm.is_Symbol and nm.name.startswith("'"):
-                return sp.Function("attr_" + nm.name.strip("'"))(A(0))
+            if nm.is_Symbol and nm.name.startswith("'") and nm.name.strip("'").isidentifier():
+                if self.structured:
+                    return sp.Function("attr_" + nm.name.strip("'"))(A(0))
+                # getattr(x, "name") is the attribute x.name: translate it as that attribute is translated here
+                return self.tr(ast.copy_location(ast.Attribute(value=args[0], attr=nm.name.strip("'"), ctx=ast.Load()), n))
         if fn == "slice" and isinstance(n.func, ast.Name) and 1 <= len(args) <= 3:
             vals = [self.tr(a) for a in args]
             NONE = sp.Symbol("None")
